@@ -48,15 +48,72 @@ def pregen(check):
                             + (p.stdout.strip().splitlines() or ["?"])[-1][:300])
 
 
+TIE_MODULE = T + "Ties"
+TIE_THEOREMS = ["tie_NewNetwork", "tie_Has", "tie_newNodeID", "tie_newNode", "tie_addNode", "tie_ensureNode", "tie_AddLink",
+                "tie_Weight", "tie_costHeuristic", "tie_buildFrom", "tie_build"]
+
+
+def regen(check):
+    """T1: regenerate lean/GeomV/C19/Gen.lean from route/route.go of the tree under test (written only when it changed) and
+    build Ties.lean, which proves that the regenerated NewNetwork / Has / newNodeID / newNode / addNode / AddLink / Weight /
+    costHeuristic return without fault what the model's functions return on related states.  If a function left the
+    translatable subset or the ties no longer build, the tie is reported broken and the Ties module is left out so that the
+    other obligations are still audited."""
+    cfg = check.cfg
+
+    def drop(why):
+        cfg["lean_modules"] = [m for m in cfg["lean_modules"] if m != TIE_MODULE]
+        cfg["theorems"] = [t for t in cfg["theorems"] if not t.startswith(TIE_MODULE + ".")]
+        check.broken.append(why)
+    exe = os.path.join(check.rundir, "c19extract")
+    with vcheck.Lock("go"):
+        b = subprocess.run(["go", "build", "-o", exe, "./cmd/c19/extract"], cwd=vcheck.HARNESS, env=vcheck.GOENV,
+                           stdout=subprocess.PIPE, stderr=subprocess.STDOUT, text=True)
+    if b.returncode != 0:
+        drop("T1 tie: the extractor does not build: " + b.stdout.strip()[-300:])
+        return
+    p = subprocess.run([exe, "--repo", vcheck.REPO], stdout=subprocess.PIPE, stderr=subprocess.PIPE, text=True)
+    if p.returncode not in (0, 3) or not p.stdout.startswith("import"):
+        drop("T1 tie: extractor failed: " + p.stderr.strip()[-300:])
+        return
+    gen = os.path.join(vcheck.LEAN, "GeomV", "C19", "Gen.lean")
+    old = open(gen).read() if os.path.exists(gen) else ""
+    if old != p.stdout:
+        with open(gen + ".tmp%d" % os.getpid(), "w") as f:
+            f.write(p.stdout)
+        os.replace(gen + ".tmp%d" % os.getpid(), gen)
+    if p.returncode == 3:
+        drop("T1 tie: " + p.stderr.strip()[-600:])
+        return
+    with vcheck.Lock("lake"):
+        b = subprocess.run(["lake", "build", TIE_MODULE], cwd=vcheck.LEAN, stdout=subprocess.PIPE, stderr=subprocess.STDOUT, text=True)
+    if b.returncode != 0:
+        errs = re.findall(r"error: .*", b.stdout)[:3]
+        drop("T1 tie broken: route.go as regenerated no longer denotes the model (GeomV.C19.Ties does not build): " + " | ".join(errs))
+
+
+def pregen_all(check):
+    pregen(check)
+    regen(check)
+
+
 CFG = {
     "id": "C19",
-    "lean_modules": ["GeomV.C19.Heap", "GeomV.C19.Ident", "GeomV.C19.Proofs"],
+    "lean_modules": ["GeomV.C19.Heap", "GeomV.C19.Ident", "GeomV.C19.IdentGen", "GeomV.C19.Nearest", "GeomV.C19.Proofs", TIE_MODULE],
+    "lean_dirs": ["C19"],
     "exe": "geomv_c19",
     "go_cmd": "c19",
     "stages": ["go:gen", "go:impl", "lean:judge"],
-    "pregen": pregen,
+    "pregen": pregen_all,
     "theorems": [T + n for n in ["bellmanFord_correct", "pickMin_spec", "listQ_spec", "heapUp_spec", "heapDown_spec", "heapQ_spec", "astar_optimal", "consistent_zero", "heuristic_consistent",
-                                 "polyLen_ge_chord", "euclidR_tri", "C19_route", "C19_unreachable", "build_wf", "C19_built", "C19_built_gonum", "C19_history", "C19_gap_not_minimal", "C19_gap_fixed", "newNode_class", "addLink_ident", "C19_ident"]],
+                                 "polyLen_ge_chord", "euclidR_tri", "C19_route", "C19_unreachable", "build_wf", "C19_built", "C19_built_gonum", "C19_history", "C19_gap_not_minimal", "C19_gap_fixed", "newNode_class", "addLink_ident", "C19_ident",
+                                 # wave 2: identification without separation (IdentGen.lean)
+                                 "newNode_firstfit", "addLink_firstfit", "buildFrom_nodes_mono", "buildFrom_nodePos_stable", "C19_ident_general", "C19_ident_build",
+                                 "C19_ident_order_dependent", "C19_ident_single_candidate", "C19_nearest_meaning",
+                                 # wave 2: the R-tree parameter replaced by C11/C12's model + theorems (Nearest.lean)
+                                 "rtreeOf_ok", "C19_nearest_rtree_nofault", "C19_nearest_rtree_min", "C19_nearest_rtree_none", "C19_nearest_rtree_unguarded",
+                                 "C19_geo_rtree_contract", "C19_ident_build_rtree"]]
+                + [TIE_MODULE + "." + n for n in TIE_THEOREMS],
     "trusted_base": [
         "Lean 4.33.0 kernel; axioms of every theorem printed by #print axioms must be within {propext, Classical.choice, Quot.sound}",
         "model lean/GeomV/C19/Model.lean is tied to /repo/route/route.go and to gonum v0.9.3 graph/path.AStar by the correspondence run on every check "
